@@ -348,7 +348,15 @@ pub fn run_lace(p: &Prog, script: &str, input: &[u8], fuel: u64) -> Session {
 /// colours, errors rendered in full - never what happens. Compared: how the session ends, the
 /// number of executed instructions and the final machine (through hooks, not the transcript).
 pub fn mode_twin(obs: &mut Obs, id: &str, p: &Prog, script: &str, input: &[u8], fuel: u64, minimal: &Outcome, shown: &str) {
-    if obs.fail.is_some() || obs.excluded.is_some() || obs.key % 6 != 0 {
+    if obs.key % 6 != 0 {
+        return;
+    }
+    mode_twin_always(obs, id, p, script, input, fuel, minimal, shown)
+}
+
+/// `mode_twin` for every case (directed cases).
+pub fn mode_twin_always(obs: &mut Obs, id: &str, p: &Prog, script: &str, input: &[u8], fuel: u64, minimal: &Outcome, shown: &str) {
+    if obs.fail.is_some() || obs.excluded.is_some() {
         return;
     }
     obs.label("repeated-in-normal-output-mode");
